@@ -173,6 +173,12 @@ func init() {
 				}
 			}
 			items = append(items, crashItems("C02", tier, crash)...)
+			// several Running plans resumed by one start-up (a stale one among them): each live plan runs once, within its bound
+			for _, sc := range FamilyBoot(tier) {
+				if strings.HasPrefix(sc.Name, "boot-many-") {
+					items = append(items, explore("C02", sc, 1, false))
+				}
+			}
 			return items
 		},
 	})
